@@ -945,6 +945,11 @@ def extract_block_as_fn(src, loc, spec, ed):
     for r in spec.get("rules", ["R3", "R1", "R9", "R12", "R13", "R10"]):
         RULES[r](src, ed, b_open + 1, b_close, name)
     del SKIP[:]
+    if spec.get("rename_self"):
+        # R15: a block of a method refers to the receiver; in the stand-alone fn it is the parameter `self_`
+        for i in range(b_open + 1, b_close):
+            if toks[i].kind == "ident" and toks[i].text == "self" and not _skipped(i):
+                ed.replace(toks[i].pos, toks[i].end, "self_")
     if spec.get("entry"):
         ed.insert(toks[b_open].end, "\n" + spec["entry"] + "\n", order=5)
     if spec.get("exit"):
